@@ -62,7 +62,7 @@ AlphaIgn == {" ", ",", "TAB", "LF", "CR", "BOM", "#", "U2", "U4", "BEL", "DEL", 
 AlphaIgnSmall == {" ", ",", "LF", "CR", "BOM", "#", "U2", "BEL", "x", "DQ"}
 AlphaStr == {"DQ", "BS", "n", "u", "x", "/", "0", "a", "U2", "U4", "BEL", "DEL", "LF", "CR", "TAB", " ", "BOM", "#"}
 AlphaStrSmall == {"DQ", "BS", "n", "u", "x", "0", "U2", "BEL", "DEL", "LF", " "}
-AlphaIgnTiny == {" ", "LF", "CR", "BOM", "#", "U2", "x"}
+AlphaIgnTiny == {" ", "TAB", "LF", "CR", "BOM", "#", "U2", "x"}
 AlphaDocTiny == {"BOM", " ", "LF", "#", "U2", "x"}
 AlphaStrTiny == {"DQ", "BS", "n", "u", "x", "U2", "LF"}
 AlphaStrSmall9 == {"DQ", "BS", "n", "u", "x", "0", "U2", "BEL", "LF"}
